@@ -151,11 +151,24 @@ func init() {
 		return x.uf("rvCanAddr", SBool, asTerm(a[0])), true
 	}
 	// go/constant constructors (T4): MakeInt64 / MakeUint64 give the Int constant of that value, MakeBool and
-	// MakeString the Bool / String constant; MakeFloat64 and MakeImag are uninterpreted
+	// MakeString the Bool / String constant (stated as ground facts about the term where it is made);
+	// MakeFloat64 and MakeImag are uninterpreted
 	for n, uf := range map[string]string{"constant.MakeInt64": "constMakeInt", "constant.MakeUint64": "constMakeInt", "constant.MakeBool": "constMakeBool", "constant.MakeString": "constMakeString", "constant.MakeFloat64": "constMakeFloat", "constant.MakeImag": "constMakeImag"} {
 		uf := uf
 		libModels[n] = func(x *Exec, st *State, e *ast.CallExpr, a []Value, _ []types.Type) (Value, bool) {
-			return Term{"(" + uf + " " + asTerm(a[0]).S + ")", SInt}, true
+			arg := asTerm(a[0]).S
+			t := "(" + uf + " " + arg + ")"
+			if !x.underBinder(t) {
+				switch uf {
+				case "constMakeInt":
+					st.assume("(and (= (constKind " + t + ") 3) (= (constInt " + t + ") " + arg + "))")
+				case "constMakeBool":
+					st.assume("(and (= (constKind " + t + ") 1) (= (constBoolVal " + t + ") " + arg + "))")
+				case "constMakeString":
+					st.assume("(and (= (constKind " + t + ") 2) (= (constStringVal " + t + ") " + arg + "))")
+				}
+			}
+			return Term{t, SInt}, true
 		}
 	}
 	libModels["reflect.Value.IsValid"] = func(x *Exec, st *State, e *ast.CallExpr, a []Value, _ []types.Type) (Value, bool) {
